@@ -5,6 +5,7 @@ package valid
 import (
 	"fmt"
 	"os"
+	"strconv"
 	"testing"
 )
 
@@ -22,14 +23,20 @@ func TestVerifReplay(t *testing.T) {
 	if vCleanup != nil {
 		defer vCleanup()
 	}
-	func() {
-		defer func() {
-			if r := recover(); r != nil {
-				fmt.Printf("REPLAY-RESULT: panic %v\n", r)
-			}
+	repeat := 1
+	if n, err := strconv.Atoi(os.Getenv("VERIF_REPEAT")); err == nil && n > 0 {
+		repeat = n // data-race replays: the same operations many times under the race detector
+	}
+	for i := 0; i < repeat; i++ {
+		func() {
+			defer func() {
+				if r := recover(); r != nil {
+					fmt.Printf("REPLAY-RESULT: panic %v\n", r)
+				}
+			}()
+			f()
 		}()
-		f()
-	}()
+	}
 	if vAssumeFail {
 		fmt.Println("REPLAY-RESULT: assume-false")
 	}
